@@ -4,7 +4,7 @@
 Require Import LT.Model.Base LT.Model.Sched.
 
 Inductive labop :=
-| LRun (rq : list nat) (bst cnt : bool) (o : list batch)
+| LRun (rq : list nat) (bst cnt : bool) (fails : list nat) (o : list batch)   (* fails: tasks whose run() raises in this call *)
 | LUncache (ts : list nat)
 | LIsCached (t : nat)
 | LCached (tys : list nat).
@@ -15,13 +15,15 @@ Inductive labout :=
 | OBool (b : bool)
 | OList (l : list nat).       (* sorted, duplicate-free *)
 
-Definition with_run (c : cfg) (st : list (nat * val)) (rq : list nat) (bst cnt : bool) : cfg :=
-  {| ntasks := ntasks c; deps := deps c; reads := reads c; behs := behs c; ty := ty c; maxpar := maxpar c;
+Definition with_run (c : cfg) (st : list (nat * val)) (rq : list nat) (bst cnt : bool) (fails : list nat) : cfg :=
+  {| ntasks := ntasks c; deps := deps c; reads := reads c;
+     behs := map (fun t => if mem t fails then BRaise else beh_of c t) (seq 0 (ntasks c));
+     ty := ty c; maxpar := maxpar c;
      cacheable := cacheable c; req := rq; pre := st; bust := bst; cont := cnt |}.
 
 Definition lab_step (p : params) (c : cfg) (st : list (nat * val)) (op : labop) : list (nat * val) * labout :=
   match op with
-  | LRun rq b k o => let '(out, s) := run p (with_run c st rq b k) o in (store s, ORun out)
+  | LRun rq b k fl o => let '(out, s) := run p (with_run c st rq b k fl) o in (store s, ORun out)
   | LUncache ts => (del_all ts st, OUnit)
   | LIsCached t => (st, OBool (has st t))
   | LCached tys => (st, OList (sort_nat (dedup (filter (fun t => mem (ty_of c t) tys) (keys st)))))
